@@ -170,11 +170,24 @@ def unfold(s):
 
 def unsafe_continuations(s):
     """Mirror of Dedent.unfold_safe: the list of (offset, kind) of backslash-newline pairs whose
-    textual removal is not token preserving; kind in string / comment / glue / linestart."""
+    textual removal is not token preserving; kind in
+       string           inside a string literal and value changing: the literal is raw, or the backslash is
+                        itself escaped
+       string-harmless  inside an ordinary string literal, the backslash escaping the newline (Python's own
+                        evaluation of the literal removes the pair too)
+       comment / glue / linestart"""
     bad = []
     st = INIT
     i = 0
+    raw = False
     while i < len(s):
+        if st[0] == 'Code' and s[i] in '\'"':
+            j = i
+            while j > 0 and (s[j - 1].isalnum() or s[j - 1] == '_'):
+                j -= 1
+            raw = 'r' in s[j:i].lower()
+        elif st[0] == 'LS' and s[i] in '\'"':
+            raw = False
         if s[i] == '\\' and i + 1 < len(s) and s[i + 1] == '\n':
             k = st[0]
             if k == 'Code':
@@ -189,8 +202,10 @@ def unsafe_continuations(s):
                 pass
             elif k == 'CodeBs':
                 bad.append((i, 'glue'))
-            else:
+            elif k in ('SBs', 'LBs') or raw or k in ('Q1', 'Q2'):
                 bad.append((i, 'string'))
+            else:
+                bad.append((i, 'string-harmless'))
             st, _ = step(st, s[i])
             st, _ = step(st, s[i + 1])
             i += 2
